@@ -14,7 +14,8 @@ def wf_fields(op):
 
 def popts_from_wopts(o, lossy=False):
     # write opts: [max,min,pb,nb,round,trim,exp,dp,nan,inf]; parse: lossy exp dp nan inf infinity
-    return "%d %s %s %s %s %s" % (1 if lossy else 0, o[6], o[7], o[8], o[9], "-")
+    infinity = gens.DEF_INFINITY if o[9] == gens.DEF_INF else o[9]
+    return "%d %s %s %s %s %s" % (1 if lossy else 0, o[6], o[7], o[8], o[9], infinity)
 
 
 def exact_value_judge(fs, items):
@@ -24,6 +25,8 @@ def exact_value_judge(fs, items):
     out = []
     for (_, sr) in res:
         st = sr.split(" ")
+        if st[0] == "ok" and len(st) == 4:      # special value: no digits
+            st += ["1", "0", "0"]
         if st[0] != "ok" or len(st) < 7:
             out.append(None)
         else:
